@@ -344,11 +344,21 @@ func C17(tier string) int {
 		run.HarnessErr = err
 		return run.Finish()
 	}
+	conc, err := c17Concurrent(run, time.Now().Add(budget))
+	if err != nil {
+		run.HarnessErr = err
+		return run.Finish()
+	}
+	concExecs := 0
+	if conc != nil {
+		concExecs = conc["executions"].(int)
+	}
 	run.Coverage = map[string]any{
+		"concurrent_delivery":           conc,
 		"states":                        r.States,
 		"transitions":                   r.Transitions,
 		"traces_validated_against_impl": r.Transitions,
-		"evaluations":                   r.Transitions,
+		"evaluations":                   r.Transitions + concExecs,
 		"distinct_nontrivial":           r.States,
 		"rule":                          "BFS over event sequences delivered to one real instance (id 2; configured peers 1..4; listed participants 1,2,3; peer 4 is configured but not a participant) through its real receiver handler: prepare/execute/contribute(from 1,3,4)/commit/abort for two account names and clock advances of 2 h, 1 h + 300 ms and 50 min against a 1 h timeout (a session is expired exactly when the advances since its prepare exceed the timeout); peers' messages carry valid polynomials, outbound contributions are answered by virtual peers; a state is the instance's session table for the two names, account existence and the harness's own record of who contributed; lifecycle monitors from the property text are evaluated on every transition",
 		"samples":                       samples.List(),
@@ -368,11 +378,17 @@ func init() {
 	Registry["C17"] = C17
 	Replayers["C17"] = func(raw json.RawMessage) int {
 		var rp struct {
-			Path []LOp `json:"path"`
+			Path       []LOp            `json:"path"`
+			Concurrent *c17ConcScenario `json:"concurrent"`
+			Choices    []int            `json:"choices"`
+			PerG       bool             `json:"goroutine_mode"`
 		}
 		if err := json.Unmarshal(raw, &rp); err != nil {
 			fmt.Println(err)
 			return 2
+		}
+		if rp.Concurrent != nil {
+			return c17ReplayConcurrent(*rp.Concurrent, rp.Choices, rp.PerG)
 		}
 		var serial atomic.Uint64
 		w, err := newC17Worker(&serial)
